@@ -269,4 +269,84 @@ theorem no_largeResp (c : Cfg) (g : Glob) (w : World) (st : St) (img : List Nat)
       · rw [dispatch_other c g w st img t0 t1]
         intro f hf; simp [sentFrames] at hf
 
+
+/-! ## Only a Discover is ever answered with a Hello -/
+
+theorem short_noHello (f : List Nat) (h : f.length ≤ 32) : decodeHello f = none := by
+  have h47 : f.length < 47 := by omega
+  unfold decodeHello
+  cases decodeBase f with
+  | none => rfl
+  | some b => simp [h47]
+
+theorem query_noHello (c : Cfg) (img : List Nat) (seq n : Nat) (more : Bool) (descs : List Nat) (hc : CfgOk c) (him : ImgOk img) :
+    decodeHello (queryFrame c img seq n more descs) = none := by
+  have hm := ourMac_length c hc
+  have hd : (respDest img).length = 6 := by
+    unfold respDest; split
+    · exact fRealSrc_len img him
+    · rfl
+  have hb := decodeBase_lltdHeader 0 (respDest img) c.ourMac (respDest img) c.ourMac seq X.opQueryResp X.tosDiscovery
+    (be 2 (n ||| (if more then 0x8000 else 0)) ++ descs) hd hm hd hm
+  have hq : queryFrame c img seq n more descs =
+      lltdHeader 0 (respDest img) c.ourMac (respDest img) c.ourMac seq X.opQueryResp X.tosDiscovery ++
+        (be 2 (n ||| (if more then 0x8000 else 0)) ++ descs) := by
+    unfold queryFrame; rw [List.append_assoc]
+  unfold decodeHello
+  rw [hq, hb]
+  simp
+
+theorem large_noHello (c : Cfg) (dest : Mac) (seq lf : Nat) (payload : List Nat) (hc : CfgOk c) (hd : dest.length = 6) :
+    decodeHello (largeFrame c dest seq lf payload) = none := by
+  have hm := ourMac_length c hc
+  have hb := decodeBase_lltdHeader 0 dest c.ourMac dest c.ourMac seq X.opQltlvResp X.tosDiscovery (be 2 lf ++ payload) hd hm hd hm
+  have hq : largeFrame c dest seq lf payload =
+      lltdHeader 0 dest c.ourMac dest c.ourMac seq X.opQltlvResp X.tosDiscovery ++ (be 2 lf ++ payload) := by
+    unfold largeFrame; rw [List.append_assoc]
+  unfold decodeHello
+  rw [hq, hb]
+  simp
+
+/-- every frame that is no Discover of a discovery service is answered without any Hello -/
+theorem no_hello (c : Cfg) (g : Glob) (w : World) (st : St) (img : List Nat) (hc : CfgOk c) (hi : St.Inv st) (him : ImgOk img)
+    (hq : ¬ ((fTos img = 0 ∨ fTos img = 1) ∧ fOpcode img = 0)) :
+    ∀ f ∈ sentFrames (parseFrameSt c g w st img).fx, decodeHello f = none := by
+  have hd : (respDest img).length = 6 := by
+    unfold respDest; split
+    · exact fRealSrc_len img him
+    · rfl
+  by_cases o0 : fOpcode img = 0
+  · have h0 : fTos img ≠ 0 := fun e => hq ⟨Or.inl e, o0⟩
+    have h1 : fTos img ≠ 1 := fun e => hq ⟨Or.inr e, o0⟩
+    rw [dispatch_other c g w st img h0 h1]
+    intro f hf; simp at hf
+  · by_cases t0 : fTos img = 0
+    · rw [dispatch_tos0 c g w st img t0 o0]
+      split
+      · intro f hf; exact short_noHello f (parseEmit_short c w st img hc hi him f hf)
+      · split
+        · rw [parseProbe_nofx]; intro f hf; simp at hf
+        · split
+          · intro f hf
+            obtain ⟨seq, n, more, descs, e⟩ := parseQuery_class c w st img f hf
+            rw [e]; exact query_noHello c img _ _ _ _ hc him
+          · split
+            · intro f hf
+              obtain ⟨seq, lf, payload, e⟩ := qltlv_class c g w st img f hf
+              rw [e]; exact large_noHello c _ _ _ _ hc hd
+            · split <;> (intro f hf; simp at hf)
+    · by_cases t1 : fTos img = 1
+      · rw [dispatch_tos1 c g w st img t1 o0]
+        split
+        · intro f hf
+          obtain ⟨seq, lf, payload, e⟩ := qltlv_class c g w st img f hf
+          rw [e]; exact large_noHello c _ _ _ _ hc hd
+        · split <;> (intro f hf; simp at hf)
+      · rw [dispatch_other c g w st img t0 t1]
+        intro f hf; simp at hf
+
+theorem answerHello_nomem (c : Cfg) (g : Glob) (w : World) (st : St) (img : List Nat) (h : (w.malloc c.mtuEff).2 = false) :
+    (answerHello c g w st img).fx = [] := by
+  unfold answerHello; simp [h]
+
 end LLTD
